@@ -21,6 +21,7 @@ struct Obj1
 	double curvature;	 // g ~ curvature * t^power near 0
 	std::string desc;
 	bool asymmetric = false;
+	double tmax = 1e9;	 // |t| beyond which the objective leaves the double range
 };
 Obj1 gen_obj1(Src& s)
 {
@@ -29,10 +30,19 @@ Obj1 gen_obj1(Src& s)
 	o.L	 = std::pow(10.0, s.uniform(-3, 3));
 	o.A	 = std::pow(10.0, s.uniform(-3, 3));
 	o.f0 = s.pick({1, 2}) == 0 ? 0.0 : s.sign() * std::pow(10.0, s.uniform(-3, 3));
-	int fam = s.pick({2, 2, 2, 3});
+	int fam = s.pick({4, 4, 4, 6, 3});
 	double x0 = o.x0, L = o.L, A = o.A, f0 = o.f0;
 	switch(fam)
 	{
+		case 4:
+		{	// multimodal: a parabola with ripples deep enough for several wells (descent clause only)
+			double amp = s.uniform(1, 30), om = std::pow(10.0, s.uniform(0.3, 1.5)), ph = s.uniform(0, 6.283185307179586);
+			o.f = [=](double x) { double t = (x - x0) / L; return f0 + A * (t * t + amp * (1 - std::cos(om * t + ph))); };
+			o.power = 0;
+			o.curvature = 1;
+			o.desc = "multimodal t^2+a(1-cos(w t+p))";
+			break;
+		}
 		case 0:
 			o.f = [=](double x) { double t = (x - x0) / L; return f0 + A * t * t; };
 			o.power = 2;
@@ -50,6 +60,7 @@ Obj1 gen_obj1(Src& s)
 			o.power = 2;
 			o.curvature = 0.5;
 			o.desc = "cosh(t)-1";
+			o.tmax = 500;
 			break;
 		default:
 			// Morse well (steep wall on one side, flat tail on the other, like a Lennard-Jones well): (1-e^{-t})^2, minimum 0 at t=0
@@ -72,8 +83,16 @@ VCLAUSE(brent_1d, 40, 30000, 600000, "the start is not already within tolerance 
 	Src& s = c.s;
 	Obj1 o = gen_obj1(s);
 	// two starting abscissae anywhere within 0.1..100 scales of the minimiser (bounded on the flat side of the Morse tail), either order
-	auto start = [&]() { double t = s.sign() * std::pow(10.0, s.uniform(-1, 2)); if(o.asymmetric) t = std::max(-3.0, std::min(8.0, t)); return o.x0 + o.L * t; };
+	// ... distances and separations over the stated 1e-3..1e3 scales; exactly on the minimiser; symmetric about it (equal values)
+	auto start = [&]() { double t = s.sign() * std::pow(10.0, s.chance(0.25) ? s.uniform(-3, 3) : s.uniform(-1, 2)); if(o.asymmetric) t = std::max(-3.0, std::min(8.0, t)); t = std::max(-o.tmax, std::min(o.tmax, t)); return o.x0 + o.L * t; };
 	double a = start(), b = start();
+	switch(s.pick({12, 1, 1, 2}))
+	{
+		case 1: a = o.x0; c.cls("start_on_the_minimiser"); break;
+		case 2: b = o.x0 - (a - o.x0); c.cls("starts_symmetric_about_the_minimiser"); break;
+		case 3: b = a + o.L * s.sign() * std::pow(10.0, s.uniform(-3, o.tmax < 1e9 ? 2.0 : 3.0)) * (o.asymmetric ? 0.0 : 1.0); c.cls("start_separation_1e-3_to_1e3"); break;
+		default: break;
+	}
 	if(a == b)
 		b = a + o.L;
 	double tol = std::pow(10.0, s.uniform(-12, -3));
@@ -99,6 +118,15 @@ VCLAUSE(brent_1d, 40, 30000, 600000, "the start is not already within tolerance 
 	VCHECK(std::isfinite(xmin), "Find_Minimum returned " << xmin);
 	double fx = o.f(xmin);
 	VCHECK(fx <= best_start, "Find_Minimum ended worse than it started: f(" << xmin << ")=" << fx << " > min(f(a),f(b))=" << best_start);
+	if(o.power == 0)
+	{
+		// multimodal: descent only; Find_Maximum / Find_Minimum duality
+		c.cls("multimodal_descent_only");
+		auto negm = [&](double x) { return -o.f(x); };
+		VMUST_RETURN("Find_Maximum/Find_Minimum", xmax = libphysica::Find_Maximum(negm, a, b, tol); xm2 = libphysica::Find_Minimum([&](double x) { return o.f(x); }, a, b, tol));
+		VCHECK(same_bits(xmax, xm2), "Find_Maximum(-f)=" << xmax << " differs from Find_Minimum(f)=" << xm2);
+		return;
+	}
 	// convergence: distance implied by the tolerance plus the resolution of the objective around its minimum
 	double floor_t = std::pow(8 * EPS * std::max(std::fabs(o.f0) / o.A, 0.0) / o.curvature + 1e-300, 1.0 / o.power);
 	// Brent's own criterion is tol*|x| + eps (absolute): that is "the distance implied by the requested tolerance"
@@ -171,13 +199,15 @@ struct NMRun
 	std::vector<double> x;
 	double fx = 0;
 	bool converged = false;
+	bool trivial = false;	// the best starting vertex already satisfies the convergence criterion: nothing to do
 };
 // runs one minimisation through one of the three overloads and performs the per-case consistency checks
-NMRun run_nm(Ctx& c, Minimization& M, const ObjN& o, const std::vector<double>& start, const std::vector<double>& deltas_in, int overload, double ftol)
+NMRun run_nm(Ctx& c, Minimization& M, const ObjN& o, const std::vector<double>& start, const std::vector<double>& deltas_in, int overload, double ftol, Src* sp = nullptr)
 {
 	NMRun r;
 	long calls = 0;
-	auto f = [&](std::vector<double> x) { calls++; return o.eval(x); };
+	std::vector<std::vector<double>> first_points;   // where the objective is evaluated first: the initial simplex as the library built it
+	auto f = [&](std::vector<double> x) { calls++; if((int) first_points.size() <= o.n) first_points.push_back(x); return o.eval(x); };
 	int n = o.n;
 	std::vector<double> deltas = deltas_in;
 	if(overload == 0)
@@ -185,6 +215,16 @@ NMRun run_nm(Ctx& c, Minimization& M, const ObjN& o, const std::vector<double>& 
 	std::vector<std::vector<double>> simplex((size_t) n + 1, start);
 	for(int i = 1; i <= n; i++)
 		simplex[(size_t) i][(size_t) (i - 1)] += deltas[(size_t) (i - 1)];
+	if(overload == 2 && sp && sp->coin())
+	{
+		// an explicit simplex need not be axis-aligned nor start with its best vertex: skew it and put a random vertex first
+		for(int i = 1; i <= n; i++)
+			for(int j = 0; j < n; j++)
+				if(j != i - 1)
+					simplex[(size_t) i][(size_t) j] += 0.4 * deltas[(size_t) j] * sp->uniform(-1, 1);
+		std::swap(simplex[0], simplex[(size_t) sp->range(0, n)]);
+		c.cls("explicit_simplex_skewed");
+	}
 	double best_start = 1e308;
 	for(auto& p : simplex)
 		best_start = std::min(best_start, o.eval(p));
@@ -203,6 +243,16 @@ NMRun run_nm(Ctx& c, Minimization& M, const ObjN& o, const std::vector<double>& 
 	if(g.exited)
 		return r;
 	VCHECK((int) r.x.size() == n, "minimize returned a point of dimension " << r.x.size());
+	// the initial simplex the library actually used (start, and start displaced along each axis by its step) - "the initial simplex vertices" of the statement
+	VCHECK((int) first_points.size() == n + 1, "the objective was evaluated " << first_points.size() << " times only");
+	for(auto& v : simplex)
+	{
+		bool found = false;
+		for(auto& q : first_points)
+			if(q == v)
+				found = true;
+		VCHECK(found, "overload " << overload << ": the initial simplex vertex " << show(v) << " is not among the first " << n + 1 << " points at which the objective was evaluated (first: " << show(first_points[0]) << ", last: " << show(first_points.back()) << ")");
+	}
 	r.fx = o.eval(r.x);
 	VCHECK(r.fx <= best_start, "minimize ended worse than it started: f(returned)=" << r.fx << " > best starting vertex " << best_start);
 	// reported state is the objective evaluated at the returned point
@@ -222,6 +272,7 @@ NMRun run_nm(Ctx& c, Minimization& M, const ObjN& o, const std::vector<double>& 
 	VCHECK(M.mpts == n + 1 && M.ndim == n, "mpts/ndim " << M.mpts << "/" << M.ndim);
 	// convergence in the function value (the tolerance is fractional in f)
 	r.converged = (r.fx - o.f0) <= 100 * ftol * (std::fabs(o.f0) + 1e-10) + 64 * EPS * std::fabs(o.f0);
+	r.trivial	= (best_start - o.f0) <= 100 * ftol * (std::fabs(o.f0) + 1e-10) + 64 * EPS * std::fabs(o.f0);
 	return r;
 }
 void gen_start(Src& s, const ObjN& o, std::vector<double>& start, std::vector<double>& deltas, double& R, double& dscale, bool well_scaled)
@@ -280,7 +331,7 @@ VCLAUSE(simplex_consistency, 160, 6000, 120000, "dimension >= 2, or one Minimiza
 		static const char* on[] = {"overload_scalar_delta", "overload_vector_delta", "overload_simplex"};
 		c.cls(on[overload]);
 		VLOG(c, "  call " << k << " overload " << overload << " start " << show(start) << " deltas " << show(deltas));
-		NMRun r = run_nm(c, M, o, start, deltas, overload, ftol);
+		NMRun r = run_nm(c, M, o, start, deltas, overload, ftol, &s);
 		if(r.exited)
 		{
 			// the iteration cap is part of the known finding K1 outside the easy class; inside it a well-scaled start on a well-conditioned bowl must return
@@ -313,7 +364,9 @@ VCLAUSE(nelder_mead_convergence_rate, 60000, 40, 800, "every batch is non-trivia
 	Src& s = c.s;
 	c.nt();
 	const int B = 400;
-	int ok_ws = 0, n_ws = 0, ok_all = 0, n_all = 0, exits = 0;
+	int ok_ws = 0, n_ws = 0, ok_all = 0, n_all = 0, exits = 0, trivial = 0;
+	// strata: a regression confined to one dimension, one overload or one tolerance band must not hide in the overall rate
+	int st_n[7][2] = {{0}}, st_ov[3][2] = {{0}}, st_tol[3][2] = {{0}};
 	for(int b = 0; b < B; b++)
 	{
 		ObjN o		= gen_objn(s, false, 6, 1e4);
@@ -323,12 +376,25 @@ VCLAUSE(nelder_mead_convergence_rate, 60000, 40, 800, "every batch is non-trivia
 		double R, ds;
 		gen_start(s, o, start, deltas, R, ds, ws);
 		Minimization M(ftol);
-		NMRun r = run_nm(c, M, o, start, deltas, (int) s.range(0, 2), ftol);
+		int ov	= (int) s.range(0, 2);
+		NMRun r = run_nm(c, M, o, start, deltas, ov, ftol, &s);
 		bool good = !r.exited && r.converged;
 		if(r.exited)
 			exits++;
+		if(!r.exited && r.trivial)
+		{
+			trivial++;	 // the start already meets the tolerance: counts neither for nor against
+			continue;
+		}
 		n_all++;
 		ok_all += good;
+		int tb = ftol >= 1e-6 ? 0 : (ftol >= 1e-9 ? 1 : 2);
+		st_n[o.n][0]++;
+		st_n[o.n][1] += good;
+		st_ov[ov][0]++;
+		st_ov[ov][1] += good;
+		st_tol[tb][0]++;
+		st_tol[tb][1] += good;
 		if(ws)
 		{
 			n_ws++;
@@ -337,6 +403,29 @@ VCLAUSE(nelder_mead_convergence_rate, 60000, 40, 800, "every batch is non-trivia
 	}
 	double rate_ws = (double) ok_ws / std::max(n_ws, 1), rate_all = (double) ok_all / n_all;
 	VLOG(c, "batch of " << B << ": converged " << ok_all << "/" << n_all << " overall (" << rate_all << "), " << ok_ws << "/" << n_ws << " with step within 10x of the distance (" << rate_ws << "), NMAX exits " << exits);
+	VLOG(c, "  " << trivial << " bowls whose start already met the tolerance were left out");
+	c.ratio("trivial_fraction", (double) trivial / B);
+	{
+		std::ostringstream o;
+		double worst = 1;
+		auto stratum = [&](const char* nm, int k, int tot, int ok) {
+			if(tot >= 40)
+			{
+				worst = std::min(worst, (double) ok / tot);
+				o << " " << nm << k << ":" << ok << "/" << tot;
+			}
+		};
+		for(int k = 1; k <= 6; k++)
+			stratum("n", k, st_n[k][0], st_n[k][1]);
+		for(int k = 0; k < 3; k++)
+			stratum("overload", k, st_ov[k][0], st_ov[k][1]);
+		for(int k = 0; k < 3; k++)
+			stratum("tolband", k, st_tol[k][0], st_tol[k][1]);
+		VLOG(c, "  strata:" << o.str());
+		c.ratio("worst_stratum_failure_rate/0.35", (1 - worst) / 0.35);
+		if(finding_open("K1"))
+			VCHECK(worst >= 0.65, "Nelder-Mead converged on fewer than 65% of the bowls of one stratum of at least 40 (dimension / overload / tolerance band):" << o.str());
+	}
 	c.ratio("premature_stop_rate_overall", 1 - rate_all);
 	c.ratio("premature_stop_rate_well_scaled", 1 - rate_ws);
 	if(finding_open("K1"))
